@@ -110,10 +110,18 @@ def gen_scenario(ctx, k):
         for b in cfg['boards']:
             if rng.random() < 0.5:
                 b['uid'] = bytes([b['uid'][0] | 0x80]) + b['uid'][1:]      # cascaded hubs: boards on the third address level
+    slow = rng.random() < 0.3
+    if slow:
+        # one board with more feature settings than fit its response budget at once (8 x 6 bytes), on a node that needs 50-200 ms per
+        # setting and works on one at a time: every answer is in time, the whole list takes up to 6 s - all of it before the system is enabled
+        b = rng.choice(cfg['boards'])
+        b['features'] = [(n_, rng.randrange(256)) for n_ in rng.sample(range(0, 120), rng.randrange(9, 31))]
     d = cfggen.write_config(cfg, cfg_dir(f'c20_{k}'))
-    nodes = cfggen.assign_tree(rng, cfg, absent_prob=0.3, unknown=rng.randrange(0, 2), unknown_hubs=rng.choice([0, 0, 1, 2]))
+    nodes = cfggen.assign_tree(rng, cfg, absent_prob=0.3 if not slow else 0.1, unknown=rng.randrange(0, 2), unknown_hubs=rng.choice([0, 0, 1, 2]))
     sc = Scn(seed=ctx.seed * 73 + k, watchdog=300000)
     sc.add(*cfggen.bus_lines(cfg, nodes), 'bus brackets 0')
+    if slow:
+        sc.add(f'bus delay {C("MSG_FEATURE_SET"):02x} {rng.choice([50, 100, 150, 200])}')
     if rng.random() < 0.4:
         sc.add('bus featecho diff')
     # the command station's answer to the switch-on is late / lost, or reports OFF: what is commanded afterwards does not depend on it
